@@ -9,7 +9,7 @@ EXTENDS Naturals, Sequences, FiniteSets, TLC, Json
 CONSTANTS Mode          \* "single": every shape alone; "pair" / "triple": sequences over the reduced shape set
 
 Chunkings == {"whole", "bytewise", "c7", "c4093", "boundary-1", "boundary+1"}
-Urls == {"plain", "v6", "port", "query", "star"}
+Urls == {"plain", "v6", "v6np", "port", "query", "star"}
 Hdrs == {"min", "multi", "case", "unknown", "long", "empty"}
 Bodies == {"none", "small", "big"}        \* 0, 46, 5000 bytes (the reader's buffer is 4096)
 Reqs == {[k |-> "req", m |-> m, url |-> u, hdr |-> h, body |-> b, src |-> s] :
